@@ -142,6 +142,8 @@ def run_cases(ctx, with_model=True, stop_first=False):
     # a small step size with the default drag: the heavy-ball velocity is then ~ step/drag times the residual, so an exit
     # test on the change of the iterate (instead of on kernel(iterate) - iterate) would stop 25 times too early
     cfgs.append(dict(dev="ring", tol=1e-3, a=0.02, b=0.5, B=0.5))
+    # a thermalisation stage first: the state it ends with is recorded as frame 0 and must be as self-consistent as any other
+    cfgs.append(dict(dev="bar_hole", tol=1e-4, a=0.3, b=0.7, B=0.5, cur={"source": 3.0, "drain": -3.0}, skip=0.03))
     if not ctx.quick:
         cfgs += [dict(dev="ring", tol=1e-4, a=0.1, b=0.5, B=0.8), dict(dev="union", tol=1e-3, a=0.5, b=1.0, B=0.6), dict(dev="bar", tol=1e-2, a=1.0, b=1.0, B=0.3, cur={"source": 3.0, "drain": -3.0})]
     # history: a second screened solve on a copy that SHARES the mesh object, with other material constants
@@ -167,7 +169,7 @@ def run_cases(ctx, with_model=True, stop_first=False):
         if os.path.exists(out):
             os.remove(out)
         opts = runs.options(solve_time=0.1, dt_init=1e-2, save_every=2, output_file=out, include_screening=True, screening_tolerance=cfg["tol"],
-                            screening_step_size=cfg["a"], screening_step_drag=cfg["b"])
+                            screening_step_size=cfg["a"], screening_step_drag=cfg["b"], **(dict(skip_time=cfg["skip"]) if cfg.get("skip") else {}))
         tag = dict(device=cfg["dev"], tol=cfg["tol"], alpha=cfg["a"], beta=cfg["b"], reused_mesh=cfg["reuse"], london_lambda=float(dev.layer.london_lambda), thickness=float(dev.layer.thickness))
 
         def fail(key, what, **extra):
@@ -181,8 +183,8 @@ def run_cases(ctx, with_model=True, stop_first=False):
             sol = tdgl.solve(dev, opts, applied_vector_potential=cfg["B"], terminal_currents=cfg.get("cur"))
         frames, _ = runs.parse_h5(sol.path)
         for fr in frames:
-            if fr["step"] == 0:
-                continue
+            if fr["step"] == 0 and not cfg.get("skip"):
+                continue  # the initial condition (without thermalisation: no currents, no induced potential yet)
             d_ = fr["data"]
             A = d_["induced_vector_potential"]
             ref = si_kernel(dev, d_["supercurrent"] + d_["normal_current"])
@@ -199,6 +201,8 @@ def run_cases(ctx, with_model=True, stop_first=False):
         # every accepted step ended with error < tol, iteration counts as recorded
         its = np.asarray(sol.dynamics.screening_iterations).astype(int)
         steps = [s for s in log.steps if s]
+        if cfg.get("skip"):
+            steps = steps[len(steps) - len(its):]  # the per-step records belong to the recorded stage: drop the thermalisation steps
         for i, errs in enumerate(steps[: len(its)]):
             if not (errs[-1] < cfg["tol"]):
                 fail("accepted-unconverged", f"step {i} accepted with last screening error {errs[-1]:.2e} >= tol", step=i)
